@@ -98,6 +98,7 @@ def judge(c, typ, edges, samples, seq, recs, res, variant, const_width):
     for x, t in zip(samples, ftoks):
         want = h.find(x)
         res.count('find_checks')
+        res.count('evaluations')
         key = (typ, tuple(c.meta['edges']), common.f2h(x))
         res.distinct.add(hash(key))
         cls = 'nan' if x != x else ('in' if want is not None else 'out')
@@ -119,6 +120,7 @@ def judge(c, typ, edges, samples, seq, recs, res, variant, const_width):
     for x, t in zip(seq, atoks):
         want = h.add(x)
         res.count('add_checks')
+        res.count('evaluations')
         if t == '!':
             viol('add:panic:%s' % ('sample=NaN' if x != x else 'sample=number'), 'add(%r) panicked' % x)
         elif (t == '1') != want:
@@ -127,7 +129,7 @@ def judge(c, typ, edges, samples, seq, recs, res, variant, const_width):
             oks += 1
     kv = o[-1].kv
     bins = [int(t[1:]) for t in kv['bins'].split(',')]
-    res.count('evaluations')
+    res.count('histograms_checked')
     if bins != h.bins:
         viol('bins', 'after adds %r: bins() = %r, model %r' % (seq, bins, h.bins))
     if sum(bins) != oks:
